@@ -130,7 +130,14 @@ macro_rules! version_common {
                     let mut w: Vec<$p::Warning> = Vec::new();
                     let mut list = Vec::new();
                     let mut inb = true;
+                    let mut runaway = false;
                     while let Some(c) = it.next_warn(&mut w) {
+                        // every chunk consumes at least its two header bytes: more chunks than bytes means
+                        // the iterator does not make progress (it would never end)
+                        if list.len() > data.len() + 1 {
+                            runaway = true;
+                            break;
+                        }
                         inb &= inside(c.data, ranges) && inside(c.data, &[range_of(data)]);
                         let off = (c.data.as_ptr() as usize).wrapping_sub(base);
                         list.push(json!({
@@ -141,10 +148,11 @@ macro_rules! version_common {
                             "resend": c.vital.map(|v| v.1).unwrap_or(false),
                         }));
                     }
-                    (list, w, inb)
+                    (list, w, inb, runaway)
                 });
                 match r {
-                    Ok((list, w, inb)) => (json!({"r": "ok", "list": list, "w": names(&w)}), inb),
+                    Ok((_, _, inb, true)) => (json!({"r": "runaway"}), inb),
+                    Ok((list, w, inb, false)) => (json!({"r": "ok", "list": list, "w": names(&w)}), inb),
                     Err(msg) => (panic_json(&msg), true),
                 }
             }
